@@ -317,6 +317,7 @@ def canon_of(it, value, flavour='canon'):
 
 
 def json_dumps(it, fr, obj, *a, **kw):
+    it.step('json.dumps')
     obj = fr.split(obj)
     if not has_sym(obj) and not a:
         try:
@@ -431,7 +432,6 @@ def json_loads(it, fr, s, **kw):
 
 def json_dump(it, fr, obj, fp, *a, **kw):
     """json.dump(obj, fp, **kw) = fp.write(json.dumps(obj, **kw)); the serialisation happens while the file is open"""
-    it.step('json.dump')
     it.eng.event('serialize', how='json.dump')
     text = json_dumps(it, fr, obj, *a, **kw)
     fp = fr.split(fp)
